@@ -545,28 +545,39 @@ def run(chk):
                        "redelivered after a crash mid-wait; under three process time zones (UTC, Asia/Kolkata, America/St_Johns) so the "
                        "engine's own EnteredTime/StartTime strings carry half-hour offsets; exit instant compared exactly with "
                        "max(target, delivery) where the target instant of a timestamp comes from the Lean RFC 3339 model; Task "
-                       "TimeoutSeconds 1/2/5 x reply 1 ms before / after the deadline x none/Catch/Retry; execution TimeoutSeconds x "
-                       "Wait/Task x none/Catch-all/Retry-all; generated timed machines (machgen.timify) under the canonical schedule: "
-                       "every history timestamp, request instant and the stopDate compared exactly with the timed Asl.run "
-                       "(generated.* in the distribution); distinct = distinct case description")
+                       "TimeoutSeconds 1/2/5 x reply 1 ms before / after the deadline x none/Catch/Retry; the execution's time limit "
+                       "(top-level TimeoutSeconds), directed: x Wait/Task x none/Catch-all/Retry-all, Task deadline before / at / after "
+                       "the execution's x 5 handlers, inside a Parallel state and in the second batch of a Map state x 3 handlers, a "
+                       "Retrier's interval running past the limit (Task / Parallel / Map: the witnesses of C08-F1) — each judged "
+                       "against the instant and outcome the property prescribes and, event by event with instants, against the timed "
+                       "Asl.run (directed.*); generated timed machines (machgen.timify; a third with an execution time limit placed "
+                       "inside the run's duration: generated.time_limit_*) under the canonical schedule: every history timestamp, "
+                       "request instant and the stopDate compared exactly with the timed Asl.run (generated.* in the distribution), "
+                       "and on every compared run of a machine with a limit the law 'nothing happens after start + TimeoutSeconds' "
+                       "evaluated on the engine's own record (failures classified by the model switch of C08-F1); "
+                       "distinct = distinct case description")
 
 
 def replay(chk, path):
     with open(path) as f:
         rp = json.load(f)
     c = rp["case"]
-    if c["kind"] == "generated-timed":
+    if "plans" in c and c.get("kind") != "task-timeout":
+        # a generated or directed case of the timed reference semantics: the engine's history next to the model's (with the
+        # switches of the open findings, and without any)
         from props import c01
         r = enginerun.run_case(c["machine"], c["input"], {k: [tuple(o) for o in v] for k, v in c["plans"].items()}, max_steps=3000)
-        print("impl :", cj(c01.impl_view(r)))
+        print("impl :", cj(c01.impl_view(r)), "limit_ms:", enginerun.limit_ms(c["machine"]), "beyond the limit:", beyond_limit(c["machine"], r)[:4])
         for e in enginerun.history_events(r.history, timed=True):
             print("   E", json.dumps(e)[:160])
-        a = common.driver([c01.model_line(c["machine"], c["input"], r.exec_arn, r.plans.oracle())])[0].split("\t")
-        if a[0] == "ok":
-            for e in enginerun.model_events(json.loads(a[1]), timed=True):
-                print("   M", json.dumps(e)[:160])
+        for tag, q in (("M ", None), ("M0", [])):
+            a = common.driver([c01.model_line(c["machine"], c["input"], r.exec_arn, r.plans.oracle(), quirks=q)])[0].split("\t")
+            if a[0] == "ok":
+                print("model", "with the switches of the open findings:" if q is None else "without switches:")
+                for e in enginerun.model_events(json.loads(a[1]), timed=True):
+                    print("  ", tag, json.dumps(e)[:160])
         return 0
-    if c["kind"] in ("task-timeout", "execution-timeout"):
+    if c["kind"] in ("task-timeout", "retried-task-timeout"):
         s, ea = run_task(c["machine"], c.get("reply_delay_ms", 99999))
         print("final:", cj(explore.final_view(s, ea)), "terminal at", term_time(s, ea))
     else:
